@@ -21,7 +21,7 @@ class C18(BaseCheck):
   REQUIRED_CLASSES = ('counter', 'gauge', 'percentile:below-reservoir', 'percentile:above-reservoir',
                       'full-stack')
   ASSUMPTIONS = ('percentile bounds allow 1e-9 relative slack for the linear interpolation',)
-  QUICK_CASES = 240
+  QUICK_CASES = 720
   THOROUGH_CASES = 8000
   QUICK_WALL = 45
   THOROUGH_WALL = 300
